@@ -10,7 +10,8 @@ Open Scope N_scope.
 
 Inductive ans :=
 | AAuto               (* database op: the database answers; node op: error *)
-| AReply (r : reply)  (* node op: the node's answer; database op: [RFail k] injects fault k *)
+| AReply (r : reply)  (* node op: the node's answer; database op: [RFail k] injects fault k;
+                         QLatestDep: [RDep x] forces the dependency reading *)
 | ACrash.             (* the process dies before this op is issued *)
 
 (* an injected fault on a database op *)
@@ -24,11 +25,25 @@ Definition fault (uniq : bool) (d : db) (cs : cstate) (o : io) (k : fkind) : db 
          end
   end.
 
+(* The dependency reading may be FORCED: seen from one task, other sessions
+   commit between its statements, so the cursors of the integrations it
+   references -- which it never writes itself -- can be anything at the moment
+   it reads them.  [AReply (RDep x)] on QLatestDep models exactly that. *)
+Definition forced_dep (o : io) (a : ans) : option reply :=
+  match a with
+  | AReply (RDep x) => match o with QLatestDep _ _ => Some (RDep x) | _ => None end
+  | _ => None
+  end.
+
 Definition step_op (uniq : bool) (d : db) (cs : cstate) (o : io) (a : ans) : db * cstate * reply :=
   if is_db_op o then
-    match a with
-    | AReply (RFail k) => fault uniq d cs o k
-    | _ => db_step uniq d cs o
+    match forced_dep o a with
+    | Some r => (d, cs, r)
+    | None =>
+        match a with
+        | AReply (RFail k) => fault uniq d cs o k
+        | _ => db_step uniq d cs o
+        end
     end
   else match a with
        | AReply r => (d, cs, r)
